@@ -29,20 +29,24 @@ package keep_fields
 //@   loop 1 invariant forall k :: depth < k && k < len(p.fieldsDepthSlice) ==> len(p.fieldsDepthSlice[k]) == 0
 //@   loop 2 invariant len(p.fieldsDepthSlice) == old(len(p.fieldsDepthSlice)) && depth < len(p.fieldsDepthSlice)
 //@   loop 2 invariant forall k :: depth < k && k < len(p.fieldsDepthSlice) ==> len(p.fieldsDepthSlice[k]) == 0
-//@   ghost leaf bool = false
+//@   ghost gok bool = false
+//@   ghost gleaf bool = false
+//@   ghost grec bool = false
 //@   ghost anyKept bool = false
 //@   ensures anyKept ==> result
 //@   loop 1 invariant anyKept ==> shouldPreserveNode
 //@   loop 2 invariant anyKept ==> shouldPreserveNode
-//@   setat "if len(childNode.children) == 0 {" leaf := (len(childNode.children) == 0)
-//@   assert at "p.fieldsDepthSlice[depth] = append(p.fieldsDepthSlice[depth], eventField)" !ok || (!leaf && !exists)
+//@   assert at "p.fieldsDepthSlice[depth] = append(p.fieldsDepthSlice[depth], eventField)" !gok || (!gleaf && !grec)
 //@   callee maplookup:children(k) (v, ok)
 //@     ensures ok ==> uf_height(ref(v.children)) >= 0 && uf_height(ref(v.children)) < uf_height(ref(fpNode.children))
 //@     ensures ok && len(v.children) != 0 ==> uf_height(ref(v.children)) >= 1
 //@     set anyKept := anyKept || (ok && len(v.children) == 0)
+//@     set gok := ok
+//@     set gleaf := ok && len(v.children) == 0
 //@   callee traverseFieldsTree(f, e, d) (r)
 //@     requires d == depth + 1
 //@     set anyKept := anyKept || r
+//@     set grec := r
 //@   callee IsObject()
 //@     pure
 //@   callee AsFields()
